@@ -4,6 +4,7 @@ import (
 	"go/ast"
 	"go/constant"
 	"go/types"
+	"strings"
 
 	"verifcheck/an"
 )
@@ -17,7 +18,7 @@ func init() {
 			"log-partition counter realigned at switch. after a restart every data file found on disk (ordered or out-of-order) enters the load context from which the next file sequence number is taken, so the flush that follows the log replay cannot overwrite an existing file; NOT decided: equality of recovered contents with pre-crash contents, fsync semantics of the VFS, interleavings of two live log generations.",
 		Assumptions: commonAssumptions,
 		Technique:   "static analysis: must-precede / success-edge cuts on go/cfg, must-hold lockset dataflow, who-may-call tables over the type-resolved call index",
-		Rules:       "C01.R1 R2 R2b R3 R3b R4 R5 R6 R7 R8 R9 R10 R11 T1",
+		Rules:       "C01.R1 R2 R2b R3 R3b R4 R5 R6 R7 R8 R9 R10 R11 R12 R13 T1",
 	}
 }
 
@@ -162,6 +163,70 @@ func c01(c *an.Ctx) {
 				f.Precedes(r, rw, reg, an.OrderOpt{Success: true, Label: "replayWal(success) ≺ compWorker.RegisterShard"})
 			}
 		}
+	}
+	// ---------------------------------------------------------------- R12
+	{
+		// The replay callback re-applies one logged request.  If the apply fails and the callback still
+		// returns nil, Replay reports success, the shard is force-flushed and the log is DELETED: the
+		// acknowledged rows of that record are gone for good.  The only error that may be cleared is
+		// SeriesLimited (the same rows were refused when they were first written).
+		r := c.Rule("C01.R12", "K-ERRFLOW", "engine:(*shard).syncReplayWal — the replay callback hands the error of re-applying a record back to Replay (only SeriesLimited is cleared)")
+		if f := fn(r, E+":shard.syncReplayWal"); f != nil {
+			wbm := call(r, E+":shard.writeWalBuffer")
+			if lit := f.LitContaining(wbm); lit == nil {
+				if !r.Failed() {
+					r.Fail(f.Name+": callback", c.P.Pos(f.Body.Pos()), "the replay callback no longer applies the record through writeWalBuffer")
+				}
+			} else if !r.Failed() {
+				g := f.Lit(lit, "replayCallback")
+				wb := g.Find(wbm)
+				r.AddSites(wb.Len())
+				for _, s := range wb.List {
+					_, errObj := g.ResultCond(s)
+					if errObj == nil {
+						// not tested by a branch: take the variable the result is assigned to
+						if as, ok := g.G.Vs[s.V].Node.(*ast.AssignStmt); ok && len(as.Lhs) >= 1 {
+							errObj = refObjOf(g, as.Lhs[len(as.Lhs)-1])
+						}
+					}
+					if errObj == nil {
+						r.Fail(g.Name+": result", c.P.Pos(s.Node.Pos()), "the error of writeWalBuffer is not kept in a variable")
+						continue
+					}
+					clears := g.Find(an.MStore("err = nil", errObj, func(f *an.Fn, e ast.Expr) bool { return an.IsNilIdent(f.Info, e) }))
+					if clears.Len() > 0 {
+						g.Guarded(r, clears, "the apply error is cleared only for SeriesLimited", an.AtomLike(`^errno\.Equal\(.*,errno\.SeriesLimited\)$`, true))
+					}
+					bad := g.Find(an.MReturn("of something else than the apply error", func(f *an.Fn, rs *ast.ReturnStmt) bool {
+						return len(rs.Results) != 1 || refObjOf(f, rs.Results[0]) != errObj
+					}))
+					one := &an.Sites{F: g, Desc: "writeWalBuffer", List: []an.Site{s}}
+					if bad.Len() > 0 {
+						g.NeverAfter(r, one, bad, "after the record was applied the callback returns the apply error itself")
+					}
+				}
+			}
+		}
+	}
+	// ---------------------------------------------------------------- R13
+	{
+		// Replay order = write order: the serial consumer takes one record from every unfinished
+		// partition per round, in partition order.  Dropping a finished partition from the list that is
+		// being walked by index, without stepping the index back, skips the next partition for that
+		// round and shifts it one round late from then on (an older value then replays last).
+		r := c.Rule("C01.R13", "K-IDIOM", "engine: log replay loops never remove the current element of the list they walk by index without stepping the index back")
+		n := 0
+		for _, d := range c.P.AllDecls() {
+			if !an.InPkg(d, E) || !strings.HasSuffix(c.P.Fset.Position(d.Decl.Pos()).Filename, "wal.go") {
+				continue
+			}
+			n++
+			for _, bad := range removeWithoutStepBack(d.Decl.Body) {
+				r.Fail(d.Name()+": element removed inside its index loop", c.P.Pos(bad.Pos()), "%s removes element [i] of a list inside the ascending index loop over that list and does not decrement i: the element that moves into slot i is skipped in this pass", d.Name())
+			}
+		}
+		r.AddSites(n)
+		r.Floor(10, "functions of engine/wal.go")
 	}
 	// ---------------------------------------------------------------- R5
 	{
@@ -477,8 +542,13 @@ func c01loadContext(c *an.Ctx) {
 		return
 	}
 	cut := upd.Vs()
-	for v := range fail.Vs() {
-		cut[v] = true
+	// a failure exit is a setError that is reached only when some error is known to be non-nil
+	// (setError(f.LoadIntoMemory()) records a possible error and is no exit)
+	errEdges := f.EdgesImplyingAny(an.AtomLike(`(^nil==|==nil$)`, false))
+	for _, s := range fail.List {
+		if len(errEdges) > 0 && f.FPath([]int{f.G.Entry}, s.V, nil, errEdges) == nil {
+			cut[s.V] = true
+		}
 	}
 	if p := f.FPath([]int{f.G.Entry}, f.G.Exit, cut, nil); p != nil {
 		r.Fail(f.Name+": file added without entering the load context", c.P.Pos(f.Body.Pos()), "a file can be added to the tables without fileLoadContext.update (path %s): the sequence counter restored at open can then be below the sequence of an existing file, and the first flush after the replay overwrites that file", f.DescribePath(p))
@@ -502,4 +572,79 @@ func c01loadContext(c *an.Ctx) {
 			r.Fail(g.Name+": sequence", c.P.Pos(g.Body.Pos()), "fileLoadContext.update no longer reads the file's sequence")
 		}
 	}
+}
+
+// removeWithoutStepBack finds `x = append(x[:i], x[i+1:]...)` inside `for i…; i < len(x); i++`
+// (or a loop whose post statement increments i) that is not followed, in the same statement
+// list, by `i--` before the iteration ends.
+func removeWithoutStepBack(body *ast.BlockStmt) []ast.Node {
+	var out []ast.Node
+	var loops []*ast.ForStmt
+	var visit func(n ast.Node) bool
+	identName := func(e ast.Expr) string {
+		if id, ok := ast.Unparen(e).(*ast.Ident); ok {
+			return id.Name
+		}
+		return ""
+	}
+	checkList := func(list []ast.Stmt) {
+		for k, st := range list {
+			as, ok := st.(*ast.AssignStmt)
+			if !ok || len(as.Lhs) != 1 || len(as.Rhs) != 1 {
+				continue
+			}
+			x := identName(as.Lhs[0])
+			ce, ok := ast.Unparen(as.Rhs[0]).(*ast.CallExpr)
+			if x == "" || !ok || len(ce.Args) != 2 || identName(ce.Fun) != "append" || ce.Ellipsis == 0 {
+				continue
+			}
+			lo, ok1 := ast.Unparen(ce.Args[0]).(*ast.SliceExpr)
+			hi, ok2 := ast.Unparen(ce.Args[1]).(*ast.SliceExpr)
+			if !ok1 || !ok2 || identName(lo.X) != x || identName(hi.X) != x || lo.High == nil || hi.Low == nil {
+				continue
+			}
+			i := identName(lo.High)
+			be, ok := ast.Unparen(hi.Low).(*ast.BinaryExpr)
+			if i == "" || !ok || be.Op.String() != "+" || identName(be.X) != i {
+				continue
+			}
+			// inside an ascending loop over i?
+			inLoop := false
+			for _, l := range loops {
+				if inc, ok := l.Post.(*ast.IncDecStmt); ok && inc.Tok.String() == "++" && identName(inc.X) == i {
+					inLoop = true
+				}
+			}
+			if !inLoop {
+				continue
+			}
+			stepped := false
+			for _, later := range list[k+1:] {
+				if dec, ok := later.(*ast.IncDecStmt); ok && dec.Tok.String() == "--" && identName(dec.X) == i {
+					stepped = true
+				}
+			}
+			if !stepped {
+				out = append(out, as)
+			}
+		}
+	}
+	visit = func(n ast.Node) bool {
+		switch x := n.(type) {
+		case *ast.ForStmt:
+			loops = append(loops, x)
+			ast.Inspect(x.Body, visit)
+			loops = loops[:len(loops)-1]
+			return false
+		case *ast.BlockStmt:
+			checkList(x.List)
+		case *ast.CaseClause:
+			checkList(x.Body)
+		case *ast.CommClause:
+			checkList(x.Body)
+		}
+		return true
+	}
+	ast.Inspect(body, visit)
+	return out
 }
